@@ -76,13 +76,35 @@ impl Visitor for Collect {
     }
 }
 
+fn classify(t: &Token, toks: &mut Vec<String>, comments: &mut Vec<String>) {
+    match t.token_type() {
+        TokenType::Whitespace { .. } | TokenType::Eof => {}
+        TokenType::SingleLineComment { comment } => comments.push(format!("--{}", comment.as_str().trim_end())),
+        TokenType::MultiLineComment { blocks, comment } => comments.push(format!("--[{}[{}", blocks, comment.as_str().replace("\r\n", "\n"))),
+        TokenType::Shebang { line } => comments.push(format!("#!{}", line.as_str().trim_end())),
+        TokenType::StringLiteral { .. } => toks.push("<str>".into()),
+        TokenType::Number { .. } => toks.push("<num>".into()),
+        _ => toks.push(t.to_string()),
+    }
+}
+/// every token reference of the file in source order (Node::tokens reaches the tokens of contained spans with
+/// their trivia, which the Visitor does not)
 fn normal_form(ast: Ast) -> (Vec<String>, Vec<String>) {
+    use full_moon::node::Node;
+    // the comment census is taken on the AST as parsed (normalising drops parentheses together with their trivia)
+    let (mut ignore, mut comments) = (vec![], vec![]);
+    for tr in ast.nodes().tokens().chain(std::iter::once(ast.eof())) {
+        for t in tr.leading_trivia() { classify(t, &mut ignore, &mut comments) }
+        for t in tr.trailing_trivia() { classify(t, &mut ignore, &mut comments) }
+    }
     let ast = Normalise.visit_ast(ast);
-    let mut c = Collect::default();
-    c.visit_ast(&ast);
+    let (mut toks, mut ignore2) = (vec![], vec![]);
+    for tr in ast.nodes().tokens().chain(std::iter::once(ast.eof())) {
+        classify(tr.token(), &mut toks, &mut ignore2);
+    }
     // semicolons and table separators / trailing commas are allowed to differ
-    let toks = c.toks.into_iter().filter(|t| t != ";").collect();
-    (toks, c.comments)
+    let toks = toks.into_iter().filter(|t| t != ";").collect();
+    (toks, comments)
 }
 
 /// Decode a quoted Lua string body (all escapes of Lua 5.1-5.4 / Luau) to bytes.
